@@ -2,6 +2,7 @@ import Votca.Lemmas.C18Wild
 import Votca.Lemmas.C18Print
 import Votca.Lemmas.C18Iter
 import Votca.Lemmas.C18Index
+import Votca.Lemmas.C18RoundTrip
 /-! # C18 — property theorems
 
 Selection patterns, ranges and index lists denote exactly what they say.
@@ -161,22 +162,7 @@ example : createIndexVector "1 3:5 9".toList = some [1, 3, 4, 5, 9] := by decide
 /-- **printing an integer and scanning it back is the identity**, whatever follows the number (as long as it does not start with a
     digit): the decimal text of `i` is read as `i` and the rest is left unread -/
 theorem scanInt_showInt (i : Int) (rest : List Char) (hr : ∀ c, rest.head? = some c → isDigit c = false) :
-    scanInt (showInt i ++ rest) = some (i, rest) := by
-  cases i with
-  | ofNat n =>
-    rw [showInt_ofNat]
-    obtain ⟨c, cs, hcs, hc⟩ := toDigits_head_digit n
-    have hrun := digitsVal_run (Nat.toDigits 10 n) rest 0 (toDigits_all_digits n) hr
-    rw [hcs] at hrun ⊢
-    rw [List.cons_append, scanInt_digit c (cs ++ rest) hc, ← List.cons_append, hrun, ← hcs, foldDigits_toDigits]
-    rfl
-  | negSucc n =>
-    rw [showInt_negSucc]
-    obtain ⟨c, cs, hcs, hc⟩ := toDigits_head_digit (n + 1)
-    have hrun := digitsVal_run (Nat.toDigits 10 (n + 1)) rest 0 (toDigits_all_digits (n + 1)) hr
-    rw [hcs] at hrun ⊢
-    rw [List.cons_append, List.cons_append, scanInt_minus c (cs ++ rest) hc, ← List.cons_append, hrun, ← hcs, foldDigits_toDigits]
-    simp [Int.negSucc_eq]
+    scanInt (showInt i ++ rest) = some (i, rest) := scanInt_showInt_lem i rest hr
 
 
 /-- the printed form of a block `b:s:e` starts with the text of `b` followed by a colon (or is the text of `b` alone): scanning it
@@ -194,5 +180,37 @@ theorem scanInt_printBlock_first (k : Block) :
       simpa [List.append_assoc] using this
 
 example : scanInt (showInt (-2048) ++ ":7".toList) = some (-2048, ":7".toList) := by decide
+
+/-! ## print / parse round trips at string level (every character the printer writes, every character the parser reads) -/
+
+/-- **C18/range print–parse (full strength, string level).**  For every accepted range expression: the text the stream operator
+    writes for the parsed range is accepted again, block by block (a single value is printed without its stride and comes back with
+    stride 1), and the re-parsed range **enumerates the same sequence** — the iteration over the re-parsed blocks terminates with
+    any sufficient budget and yields exactly what the first range denotes.  The proof goes through the characters: the tokenizer cuts
+    the printed text exactly at the printer's commas and colons, no field is dropped, and `std::stoi` reads every printed 32-bit field
+    back as the integer it was printed from. -/
+theorem range_print_parse (str : List Char) (bs : List Block) (h : parse str = some bs) :
+    parse (printBlocks bs) = some (bs.map normBlock) ∧ denote (bs.map normBlock) = denote bs ∧
+    ∀ fuel, (denote bs).length ≤ fuel → enumerate (bs.map normBlock) fuel = (denote bs, true) := by
+  have hp := parse_printBlocks bs (parse_printable str bs h)
+  refine ⟨hp, denote_norm bs, fun fuel hf => ?_⟩
+  have := range_enumerates (printBlocks bs) (bs.map normBlock) hp fuel (by rw [denote_norm]; exact hf)
+  rw [this, denote_norm]
+
+/-- printing is idempotent after one round: the re-parsed range prints as the same text -/
+theorem range_print_stable (k : Block) : printBlock (normBlock k) = printBlock k := by
+  unfold normBlock; split
+  · rename_i h; unfold printBlock; simp [h]
+  · rfl
+
+/-- **C18/index lists, string level**: `CreateIndexVector (CreateIndexString xs)` is the sorted duplicate-free `xs` for every list
+    of 64-bit indices (negative ones included) -/
+theorem index_string_roundtrip (xs : List Int) (h : ∀ x ∈ xs, inInt64 x = true) :
+    createIndexVector (createIndexString xs) = some (sortDedup xs) :=
+  createIndexVector_createIndexString xs h
+
+example : parse (printBlocks [⟨1, 2, 7⟩, ⟨5, -2, 0⟩, ⟨9, 4, 9⟩]) = some [⟨1, 2, 7⟩, ⟨5, -2, 0⟩, ⟨9, 1, 9⟩] := by decide
+example : printBlocks [⟨1, 2, 7⟩, ⟨5, -2, 0⟩, ⟨9, 4, 9⟩, ⟨3, 1, 6⟩] = "1:2:7,5:-2:0,9,3:6".toList := by decide
+example : createIndexVector (createIndexString [9, -3, 4, 5, -2, 3]) = some [-3, -2, 3, 4, 5, 9] := by decide
 
 end Votca.C18
